@@ -133,8 +133,13 @@ impl Config {
         v: &serde_yaml::Value,
         verbose: bool,
     ) -> Result<()> {
-        let vstr = serde_yaml::to_string(v)?;
-        let vstr = vstr.trim();
+        // Use string values as they are. Their YAML representation would add quotes to strings
+        // which look like other YAML types (e.g. `"123"` or `"true"`).
+        let vstr = match v {
+            serde_yaml::Value::String(s) => s.clone(),
+            _ => serde_yaml::to_string(v)?.trim().to_string(),
+        };
+        let vstr = vstr.as_str();
         match k {
             "nodes_uri" => {
                 cfg_path
